@@ -29,6 +29,9 @@ for m in sorted(glob.glob(os.path.join(HERE, "seeded", "*", "meta.json"))):
     r = rounds.setdefault(w, {"n": 0, "first": 0, "now": 0, "now_input": 0, "missed_now": []})
     r["n"] += 1
     r["first"] += bool(init.get(name, {}).get("caught_by_own_check_at_first_evaluation"))
+    if d.get("superseded") or d.get("not_exercisable"):
+        r["missed_now"].append(name + " (see row)")
+        continue
     r["now"] += bool(own.get("violations")); r["now_input"] += bool(own.get("with_failing_input"))
     if not own.get("violations"):
         r["missed_now"].append(name)
@@ -46,6 +49,10 @@ for m in sorted(glob.glob(os.path.join(HERE, "seeded", "*", "meta.json"))):
     name = os.path.basename(os.path.dirname(m))
     res = "; ".join("%s: %s / %s" % (c, "caught" if v["violations"] else "MISSED", "input" if v["with_failing_input"] else "-")
                     for c, v in d.get("checks", {}).items())
+    if d.get("superseded"):
+        res = "no longer a violation: " + d["superseded"][:160]
+    if d.get("not_exercisable"):
+        res = "not exercisable: " + d["not_exercisable"][:200]
     out.append("| %s | %s | %s | %s |" % (name, (d.get("summary") or "").replace("|", "/")[:150],
                                           (d.get("needs") or "").replace("|", "/")[:120], res))
 out.append("")
